@@ -4,7 +4,7 @@ traces (SMACK skips, early/missing/repeated CCS, bad/plaintext Finished, data be
 Tape layout = order of draws in prop() of props/C06/seq12.cc (random target):
   victim_server, sv, cauth, ems-index, resumed(0 = resumed!), seed hi, seed lo, nsel (1..5 one op, 6..9 two ops), ops..., trailer (0,1 = one record), vary (0)"""
 import os
-O_DEL, O_DUP, O_SWAP, O_RETAG, O_SUBST, O_INJECT, O_FLIPFIN, O_PROT, O_MODE, O_CCSBODY, O_SECRET, O_FINFRAG, O_CVFRAG, O_BODYLEN, O_EPOCH, O_SEQ = range(16)
+O_DEL, O_DUP, O_SWAP, O_RETAG, O_SUBST, O_INJECT, O_FLIPFIN, O_PROT, O_MODE, O_CCSBODY, O_SECRET, O_FINFRAG, O_CVFRAG, O_BODYLEN, O_EPOCH, O_SEQ, O_HR = range(17)
 D12_RSA_GCM, D12_ECDHE_GCM, D10_RSA_CBC, D10_ECDHE_CBC = 6, 7, 8, 9   # DTLS modes (full handshakes only)
 HONEST, ZERO, FF, ARBITRARY, BITFLIP = range(5)   # body of a fragmented Finished / CertificateVerify
 T = dict(HR=0, CH=1, SH=2, NST=3, CERT=4, CERT0=5, SKE=6, CR=7, SHD=8, CV=9, CKE=10, FIN=11, CCS=12, APP=13, WARN=14, UNK=15)
@@ -167,6 +167,21 @@ CASES = {
     'cli-ticket-only-declined-zero-secret-resumption': tape(False, ECDHE_GCM, False, [op(O_SECRET, 2)], tonly=(3, 0)),
     'cli-ticket-only-new-ticket-after-ccs': tape(False, RSA_GCM, False, [op(O_SWAP, 3)], tonly=(4, 0)),
     'cli-ticket-only-new-ticket-omitted': tape(False, ECDHE_GCM, False, [op(O_DEL, 4)], tonly=(4, 0)),
+    # HelloRequest (never hashed): O_HR args = (position, 1 = same record as the next handshake message).  Client: refuse or really ignore; server: refuse
+    'cli-hello-request-before-server-hello': tape(False, RSA_GCM, False, [op(O_HR, 0, 0)]),
+    'cli-hello-request-before-server-hello-same-record': tape(False, ECDHE_GCM, False, [op(O_HR, 0, 1)]),
+    'cli-hello-request-before-server-hello-same-record-resumed': tape(False, RSA_GCM, False, [op(O_HR, 0, 1)], resumed=True),
+    'cli-hello-request-before-server-hello-same-record-tls11': tape(False, RSA_CBC_11, False, [op(O_HR, 0, 1)]),
+    'cli-hello-request-before-certificate-same-record': tape(False, RSA_GCM, False, [op(O_HR, 1, 1)]),
+    'cli-hello-request-before-server-hello-done': tape(False, ECDHE_GCM, False, [op(O_HR, 3, 0)]),
+    'cli-hello-request-before-ccs': tape(False, RSA_GCM, False, [op(O_HR, 3, 0)]),
+    'cli-hello-request-between-ccs-and-finished': tape(False, RSA_GCM, False, [op(O_HR, 4, 1)]),
+    'cli-hello-request-after-finished': tape(False, ECDHE_GCM, False, [op(O_HR, 6, 0)]),
+    'cli-hello-request-hides-skipped-certificate': tape(False, RSA_GCM, False, [op(O_HR, 0, 1), op(O_DEL, 2)]),
+    'srv-hello-request-before-client-hello-same-record': tape(True, RSA_GCM, False, [op(O_HR, 0, 1)]),
+    'srv-hello-request-before-client-key-exchange': tape(True, ECDHE_GCM, False, [op(O_HR, 1, 1)]),
+    'srv-hello-request-between-ccs-and-finished': tape(True, RSA_GCM, False, [op(O_HR, 3, 0)]),
+    'srv-hello-request-after-finished': tape(True, RSA_GCM, False, [op(O_HR, 4, 0)]),
     'cli-resumed-abbreviated-when-full-expected': tape(False, RSA_GCM, False, [op(O_MODE, 2)]),
 }
 
